@@ -47,8 +47,6 @@ val sub : nat -> nat -> nat
 module Nat :
  sig
   val leb : nat -> nat -> bool
-
-  val ltb : nat -> nat -> bool
  end
 
 val forallb : ('a1 -> bool) -> 'a1 list -> bool
@@ -111,6 +109,10 @@ module N :
   val eqb : n -> n -> bool
 
   val leb : n -> n -> bool
+
+  val ltb : n -> n -> bool
+
+  val of_nat : nat -> n
 
   val of_uint : uint -> n
 
@@ -240,7 +242,7 @@ val oB_PLUS0000 : bytes
 
 val oB_MINUS0000 : bytes
 
-val iNT_MAX_STR_DIGITS : nat
+val iNT_MAX_STR_DIGITS : n
 
 val py_int_digits : bytes -> z result
 
